@@ -11,12 +11,19 @@ DevPcall == {"PcallCatchesTimeout"}
 DevCo == {"CoroutineNoHook"}
 DevHookCtl == {"HookControlExported"}
 DevNested == {"NestedInvokeResetsHook"}
+DevInBand == {"NestedTimeoutInBand"}
 
 BodiesAll == AllBodies
 BodiesTight == {"tight"}
 BodiesTwo == {"tight", "deeprec"}
+BodiesThree == {"tight", "deeprec", "invloop"}
 KindsAll == AllKinds
-KindsCore == {"pcall", "ploop", "cowrap"}
+\* the three ways into a nested invocation are one kind for the machine: model checking takes one
+KindsMC == AllKinds \ {"ninvt", "ninvx"}
+KindsCore == {"pcall", "ploop", "cowrap", "ninv"}
+\* family "where the non-terminating code runs": wrapper lists that contain a nested invocation
+KindsNest == {"pcall", "ploop", "xlooph", "cowrap", "ninv", "ninvt"}
+BodiesNest == {"tight", "deeprec"}
 
 RECURSIVE SeqsUpTo(_, _)
 SeqsUpTo(S, n) ==
@@ -25,6 +32,7 @@ SeqsUpTo(S, n) ==
        P \cup {Append(p, k) : p \in {q \in P : Len(q) = n - 1}, k \in S}
 
 Programs == {[body |-> b, wrap |-> w] : b \in Bodies, w \in SeqsUpTo(Kinds, MaxDepth)}
+ProgramsNested == {q \in Programs : Len(q.wrap) = MaxDepth /\ \E i \in DOMAIN q.wrap : q.wrap[i] \in NestedKinds}
 
 \* single programs for the demonstration configurations
 P(b, w) == {[body |-> b, wrap |-> w]}
@@ -34,6 +42,9 @@ P_cowrap == P("tight", <<"cowrap">>)
 P_clear == P("tight", <<"clear">>)
 P_inv == P("tight", <<"inv">>)
 P_deeploop == P("deeprec", <<"ploop">>)
+P_ninv == P("tight", <<"ninv">>)
+P_ploop_ninv == P("tight", <<"ploop", "ninv">>)
+P_invloop == P("invloop", <<>>)
 
 Spec == LTInit(Progs) /\ [][LTNext]_vars /\ Fair
 =============================================================================
